@@ -40,6 +40,13 @@ REQUIRED = ["DaeVerif.C07.Props." + n for n in (
     "request_match_real_is_first_match",
     "response_match_real_is_first_match",
     "response_match_real_empty_name",
+    # upstream resolvers as a transition system (all interleavings): lean/DaeVerif/C07/ResolverProps.lean
+    "obtained_upstream_is_registered",
+    "published_upstream_is_registered",
+    "obtained_upstream_stays_registered",
+    "answers_of_obtained_upstream_are_routed_by_upstream_rules",
+    "retry_after_failure_succeeds",
+    "question_ends_as_routed_under_every_schedule",
 )]
 
 
@@ -49,6 +56,7 @@ def run(ctx):
         "pkg/trie CIDR trie: numeric containment in Props.lean; Compose.lean goes through C12's trieMatch (HasPrefix contract over Prefix2bin128 strings)",
         "the rule optimizers of dns.New (MergeAndSort, Deduplicate): not modelled; their output is compared decision-by-decision with the unoptimized program on every generated question/answer (C04 proves them)",
         "the response cache is modelled as a key → records map threaded through a scenario: fresh entries, entries seeded stale (optimistic cache: served + refreshed), TTL-0 answers (never served); expiry timing, LRU and TTL rewriting are C08's subject; upstream transports are fake forwarders (identity bound at creation, incl. the address dialled)",
+        "upstream resolvers: the transition system of Resolver.lean has one atomic step per statement of GetUpstream / dns.New's FinishInitCallback and arbitrary schedulers; Go's guarantees used: a freshly allocated *Upstream differs from every live one, atomic.Pointer / sync.Map operations are linearizable. The harness forces schedules at the two blocking operations only (newUpstreamFunc seam, UpstreamReadyCallback); finer interleavings are covered by the theorems, not by the tie",
         "miekg/dns Pack/Unpack/CanonicalName; names are ASCII in miekg presentation form (wire names with `@` arrive as `\\@`); the controller skeleton handle/dialSend/handleOpt is hand-written: its theorems about single steps are unfoldings, the behavioural tie and the source-structure guard (decisive order facts extracted by translators/c07skel) carry the correspondence",
     ]
     # source-structure guard: the decisive order facts of the controller's request path are recomputed from the Go
@@ -66,7 +74,8 @@ def run(ctx):
         return 2
     cur = facts_of(out[out.index("/-! SNAPSHOT"):])
     skeleton_diff = [f for f in cur if f not in snap] + [f"(missing) {f}" for f in snap if f not in cur]
-    ctx.prove(["DaeVerif.C07.Props", "DaeVerif.C07.Compose"], ["DaeVerif.C07.Props"], ["DaeVerif/C07/*.lean"],
+    ctx.prove(["DaeVerif.C07.Props", "DaeVerif.C07.Compose", "DaeVerif.C07.ResolverProps"], ["DaeVerif.C07.Props"],
+              ["DaeVerif/C07/*.lean"],
               extra_targets=["c07drv"])
     ctx.required_theorems(REQUIRED)
     if skeleton_diff:
@@ -107,13 +116,71 @@ def run(ctx):
             p = subprocess.run([binp], input=b"explain\n" + open(ops, "rb").read(), stdout=subprocess.PIPE,
                                stderr=subprocess.DEVNULL, timeout=1200)
             for l in p.stdout.decode("utf-8", "replace").split("\n"):
-                if l.startswith(("rq ", "rs ", "ask ")):
+                if l.startswith(("rq ", "rs ", "ask ", "ga ", "gr ")):
                     classes[l] += 1
         except Exception as e:  # coverage is best effort
             ctx.log.write(f"explain failed: {e}\n")
 
+    def judge_resolver(ol, il, ml, mism):
+        """Stream c07u.  What decides is what a question ENDS with (the `done …` line of the real code) against
+        the schedule-independent part the model printed when the question started (` ;; spec req=… resp=…`):
+        the route; the upstream handed out is registered under the routed index (`from` = `req`); the decision is
+        the one for an answer of THAT upstream; a re-ask upstream handed out is registered under the re-ask index.
+        An initialisation error is acceptable only after the schedule injected a failure.  Where the callers
+        park on the way (`park:build` / `park:cb`, i.e. how the code synchronises its initialisations) is compared
+        with the transition system as well, but a difference there alone is a DIAGNOSTIC (the theorems are
+        about every schedule of the modelled synchronisation; another correct synchronisation needs the model
+        re-read, not an alarm)."""
+        spec, failed, start = {}, False, 0
+        bad = []
+        for i, (op, im, mo) in enumerate(zip(ol, il, ml)):
+            tok = op.split(" ")
+            if tok[0] == "cfg":
+                spec, failed, start = {}, False, i
+                continue
+            if tok[0] == "ga" and " ;; spec " in mo:
+                spec[tok[1]] = dict(kv.split("=", 1) for kv in mo.split(" ;; spec ", 1)[1].split(" "))
+            if tok[0] == "gr" and tok[2] == "fail":
+                failed = True
+            if not im.startswith("done ") or tok[1] not in spec:
+                continue
+            sp = spec[tok[1]]
+            got = dict(kv.split("=", 1) for kv in im.split(" ")[1:])
+            why = None
+            if got["req"] != sp["req"] and not (got["req"] == "err:upstreaminit" and sp["req"].startswith("u") and failed):
+                why = f"routed `{got['req']}`, the first matching request rule says `{sp['req']}`"
+            elif got["req"].startswith("u") or got["req"] == "asis":
+                if got["from"] != got["req"]:
+                    why = (f"the upstream handed out for `{got['req']}` reads as `{got['from']}` in upstream2Index: "
+                           "its answers are not routed by upstream(...) rules")
+                elif got["resp"] != sp["resp"] and not (got["resp"] == "err:upstreaminit" and sp["resp"].startswith("next:") and failed):
+                    why = f"answer of `{got['req']}` decided `{got['resp']}`, the first matching response rule says `{sp['resp']}`"
+                elif got["resp"].startswith("next:") and got["from1"] != got["resp"][5:]:
+                    why = f"the re-ask upstream handed out for `{got['resp']}` reads as `{got['from1']}` in upstream2Index"
+            if why:
+                bad.append((i + 1, op, im, mo, why, ol[start:i + 1]))
+        for ln, op, im, mo, why, hist in bad[:8]:
+            ctx.report(f"upstream resolver, c07u line {ln}: {why} (impl `{im}`)",
+                       {"stream": "c07u", "line": ln, "op": op, "impl": im, "model": mo, "schedule": hist,
+                        "replay": "VERIF_SEED=%d ./check C07 %s" % (ctx.seed, ctx.tier)})
+        shape = [m for m in mism if m[0] not in {b[0] for b in bad}]
+        for ln, op, im, mo in shape[:3]:
+            ctx.say(f"DIAGNOSTIC (not a violation) c07u line {ln}: the callers synchronise differently from the modelled "
+                    f"GetUpstream: impl `{im[:120]}` model `{mo[:120]}` — re-read lean/DaeVerif/C07/Resolver.lean")
+        diag["c07u.schedule-shape"] = len(shape)
+        ctx.cov.setdefault("streams", {}).setdefault("c07u", {})["decisive_mismatches"] = len(bad)
+        return []
+
+    bins = {}
+    only = [x for x in os.environ.get("C07_ONLY", "").split(",") if x]   # development aid: run a subset of the streams
+
     def tie(pkg, files, outname, test, stream):
-        binp = ctx.go_test_build(pkg, files + [gen_for(os.path.basename(pkg))], outname)
+        if only and stream not in only:
+            return True
+        # one test binary per package, shared by the streams of that package
+        if outname not in bins:
+            bins[outname] = ctx.go_test_build(pkg, files + [gen_for(os.path.basename(pkg))], outname)
+        binp = bins[outname]
         if not binp:
             return False
         rc, out = ctx.run_harness(binp, test)
@@ -130,12 +197,14 @@ def run(ctx):
         def canon(l):
             if l.startswith("ms="):
                 return "compiled"
-            return l.split(" | ", 1)[0]
+            return l.split(" ;; ", 1)[0].split(" | ", 1)[0]
         mism = ctx.diff_streams(ops, impl, model, stream, canon=canon)
         ol = read_lines(ops)
+        if stream == "c07u":
+            mism = judge_resolver(ol, read_lines(impl), read_lines(model), mism)
         ndiag = 0
         for i, (im, mo) in enumerate(zip(read_lines(impl), read_lines(model))):
-            if im != mo and canon(im) == canon(mo):
+            if im != mo.split(" ;; ", 1)[0] and canon(im) == canon(mo):
                 ndiag += 1
                 if ndiag <= 3:
                     ctx.say(f"DIAGNOSTIC (not a violation) {stream} line {i+1}: impl `{im[-160:]}` model `{mo[-160:]}`")
@@ -148,7 +217,7 @@ def run(ctx):
         state["evaluations"] += len(ol)
         for op, im, mo in zip(ol, read_lines(impl), read_lines(model)):
             k = op.split(" ", 1)[0]
-            if k in ("rq", "rs", "ask", "dq", "pair", "pref"):
+            if k in ("rq", "rs", "ask", "dq", "pair", "pref", "ga", "gr"):
                 distinct.add(op)
             if "MODEL-SPLIT" in mo:
                 ctx.proof_failures.append("driver: scan and first-match specification disagree on " + op[:300])
@@ -168,7 +237,10 @@ def run(ctx):
         explain(ops)
         return True
 
-    ok = tie("component/dns", ["component/dns/c07_test.go"], "c07m", "TestVerifC07Matchers", "c07m")
+    dns_files = ["component/dns/c07_test.go", "component/dns/c07u_test.go"]
+    ok = tie("component/dns", dns_files, "c07m", "TestVerifC07Matchers", "c07m")
+    # upstream resolvers under forced schedules (transition system of Resolver.lean)
+    ok = ok and tie("component/dns", dns_files, "c07m", "TestVerifC07Resolver", "c07u")
     ok = ok and tie("control", ["control/c07_test.go"], "c07c", "TestVerifC07Controller", "c07c")
     ok = ok and tie("component/daedns", ["component/daedns/c07_test.go"], "c07d", "TestVerifC07Daedns", "c07d")
     if not ok:
@@ -184,14 +256,41 @@ def run(ctx):
                  "ask.upstream-queries.3": 100, "ask.reply.answers": 300, "ask.two-questions": 40,
                  "cfg.ip-version-prefer": 5, "ask.qtype-from-key-table": 100, "op.pref": 8},
         "c07d": {"op.dq": 500, "dq.decision.upstream": 200, "dq.decision.passthrough": 200},
+        "c07u": {"op.ga": 600, "op.gr": 500, "gr.at-build.fail": 50, "gr.at-cb.fail": 40, "cfg.leading-upstream-condition": 100,
+                 "scenario.directed.second-question-while-first-in-ready-callback": 20,
+                 "scenario.directed.failing-first-init-then-retry": 20},
     }
-    if not any(os.environ.get(v) for v in ("C07_NCFG", "C07_NCFG_CTL")):
+    floors["c07c"].update({"op.recfg": 20, "gate.first-client-held-in-ready-callback": 10, "op.gate-ask": 20})
+    # classes of forced schedules, as classified by the MODEL (driver's explain mode), i.e. independent of what the
+    # code under test does with them
+    class_floors = [
+        ("a question starts while an earlier caller of the same resolver is inside the upstream-ready callback",
+         lambda k: k.startswith("ga ") and "earlier-caller-in-ready-callback:1+" in k, 80),
+        ("a question starts while an earlier caller of the same resolver is inside its bootstrap resolution",
+         lambda k: k.startswith("ga ") and "earlier-caller-in-bootstrap:1+" in k, 60),
+        ("a question starts after a failed initialisation (retry)",
+         lambda k: k.startswith("ga ") and "published:failed" in k, 60),
+        ("a question takes the fast path", lambda k: k.startswith("ga ") and "published:ok then:done" in k, 100),
+        ("an initialisation fails while another caller of the resolver is inside the ready callback",
+         lambda k: k.startswith("gr ") and "outcome:fail" in k and "other-callers-in-ready-callback:1+" in k, 20),
+        ("an initialisation fails after another caller has published",
+         lambda k: k.startswith("gr ") and "outcome:fail" in k and "published-meanwhile:ok" in k, 15),
+        ("a re-ask upstream is initialised from inside ResponseSelect",
+         lambda k: k.startswith("gr ") and "at:ready-callback outcome:ok" in k and "then:park:build" in k, 10),
+    ]
+    if not any(os.environ.get(v) for v in ("C07_NCFG", "C07_NCFG_CTL", "C07_ONLY", "C07_NSCEN")):
         short = [f"{st}:{k}={dist[st].get(k, 0)}<{v}" for st, fl in floors.items() for k, v in fl.items()
                  if dist[st].get(k, 0) < v]
+        for what, pred, need in class_floors:
+            have = sum(v for k, v in classes.items() if pred(k))
+            if have < need:
+                short.append(f"c07u:[{what}]={have}<{need}")
         if short:
             ctx.say("GENERATOR-FLOOR-NOT-REACHED " + " ".join(short))
             return 2
     ctx.cov["generator_floors"] = floors
+    ctx.cov["schedule_class_floors"] = {what: {"floor": need, "seen": sum(v for k, v in classes.items() if pred(k))}
+                                        for what, pred, need in class_floors}
     ctx.samples = samples
     ctx.cov["input_distribution"] = dist
     ctx.cov["diagnostic_only_differences"] = diag
@@ -206,5 +305,8 @@ def run(ctx):
              "with the model's), rq/rs (one question / one answer through the real Match, plain and with dns.New's "
              "optimizer chain), cfg, ask / pair / pref (client messages through the real DnsController with fake upstreams: upstream "
              "queries in order and reply DECIDE; cache contents, error class and the compiled-array dump are diagnostics), dq (dae's "
-             "own look-ups through daedns). distinct_nontrivial = distinct rq/rs/ask/dq/pair/pref lines",
+             "own look-ups through daedns), recfg (a reload through ReuseForReload: new rule lists, cache kept), ga / gr (stream c07u: a client "
+             "question = RequestSelect + ResponseSelect through the real GetUpstream under a schedule forced at the bootstrap seam and the "
+             "upstream-ready callback; what a question ENDS with decides — route, `from` index of the upstream handed out, decision —, the "
+             "park positions are diagnostics). distinct_nontrivial = distinct rq/rs/ask/dq/pair/pref/ga/gr lines",
         evaluations=state["evaluations"], distinct=len(distinct))
